@@ -203,7 +203,11 @@ static void build_ops() {
 	auto add = [](uint8_t k, int a = 0, int b = 0, int c = 0) { ops.push(Op{k, static_cast<uint8_t>(a), static_cast<uint8_t>(b), static_cast<uint8_t>(c)}); };
 	if (opt.og & OG_CORE) { add(OP_UPDATE); for (int k_i = 0, k = g_ids[0]; k_i < g_nids; ++k_i, k = g_ids[k_i < g_nids ? k_i : 0]) add(OP_CHANGE, k); }
 	if (opt.og & (OG_CORE | OG_IMM)) for (int k_i = 0, k = g_ids[0]; k_i < g_nids; ++k_i, k = g_ids[k_i < g_nids ? k_i : 0]) add(OP_IMM, k);
-	if (opt.og & OG_REACT) add(OP_REACT);
+	if (opt.og & OG_REACT) { add(OP_REACT);
+#if VX_EVB
+		add(OP_REACT, 1);
+#endif
+	}
 	if (opt.og & OG_QUERY) add(OP_QUERY);
 #if VX_PAYLOAD
 	if (opt.og & OG_PAYLOAD) for (int k_i = 0, k = g_ids[0]; k_i < g_nids; ++k_i, k = g_ids[k_i < g_nids ? k_i : 0]) { add(OP_CHANGEW, k, 1); add(OP_IMMW, k, 1); if (opt.og & OG_PAYLOAD2) { for (int tg = 2; tg <= 4; ++tg) { add(OP_CHANGEW, k, tg); add(OP_IMMW, k, tg); } } }
